@@ -890,6 +890,19 @@ class Interp:
                             out.extend(x.rest())
                         elif isinstance(x, VecObj):
                             out.extend(x.items)
+                        elif hasattr(x, 'get') and hasattr(x, 'set') and callable(getattr(x, 'get')):
+                            # `&mut Option<T>` (a reference to a slot): iterating it yields a reference to the payload, if any
+                            cur = x.get()
+                            if isinstance(cur, tuple) and len(cur) >= 2 and cur[0] == 'ctor' and cur[1].startswith('core::option::Option::'):
+                                if cur[1].endswith('::Some'):
+                                    pl = cur[2][0]
+                                    if isinstance(pl, tuple) and len(pl) == 3 and pl[0] == 'struct' and isinstance(pl[2], dict):
+                                        out.append(pl)          # a modelled struct is shared: writes to it are seen through the slot
+                                    else:
+                                        from .places import SlotRef
+                                        out.append(SlotRef(lambda x=x: x.get()[2][0], lambda v, x=x: x.set(('ctor', 'core::option::Option::Some', (v,))), 'payload of an option'))
+                            else:
+                                raise Unanalysable('flatten over a reference to something that is not an Option')
                         else:
                             raise Unanalysable('flatten over elements the evaluator does not model')
                     return ('iter', out)
